@@ -140,15 +140,18 @@ impl Decoder for Socks5UdpCodec {
         if src.is_empty() {
             return Ok(None);
         }
-        if src.remaining() < 5 {
+        // a datagram is decoded in one piece or dropped as a whole: a malformed one must not stay in the read
+        // buffer, where UdpFramed would find and reject it again on every poll instead of receiving the next one
+        let mut packet = src.split_to(src.len());
+        if packet.remaining() < 5 {
             bail!("Insufficient length of packet");
         }
-        if src[2] != 0 {
+        if packet[2] != 0 {
             bail!("Discarding fragmented payload");
         }
-        src.advance(3);
-        let recipient = address::decode(src)?;
-        Ok(Some((src.split_off(0), recipient)))
+        packet.advance(3);
+        let recipient = address::decode(&mut packet)?;
+        Ok(Some((packet, recipient)))
     }
 }
 
